@@ -59,6 +59,11 @@ def run(rep, tier, replay):
                                    outnull=big)
                     c.field = (label, fname, bit)
                     cases.append(c)
+                if not big and bit % 8 == 0:
+                    # as FILE operand with -v: the error path through cleanup() must end with status 1 as well
+                    c = sched.Case("%s %s bit%d|d -v FILE W=2" % (label, fname, bit), ["-d", "-v", "-n", "2"], bad, {}, kind="expand", timeout=60, mode="file")
+                    c.field = (label, fname, bit)
+                    cases.append(c)
                 if not big:
                     # one 32-bit word per input block (and two): the parser and the retriever are suspended at every word boundary,
                     # so every field is split across calls in whichever way its bit offset dictates
